@@ -26,7 +26,7 @@ from simftp import fs as simfs, scenario
 from simftp.world import aioftp
 
 PROP = "C09"
-NAMES = ["a", "b", "c", "sub", "data", "x.txt", "a"]
+NAMES = ["a", "b", "c", "sub", "data", "Data", "x.txt", "a", "A"]
 
 
 def gen_tree(rnd, depth=0):
@@ -128,6 +128,17 @@ def gen_sequence(seed):
             return pabs[len(cwd.rstrip("/")) + 1 :]
         return pabs
 
+    def respell(pabs, current):
+        cands = {pabs, "/." + pabs, pabs + "/"}
+        if cwd == "/":
+            cands.add(pabs.lstrip("/"))
+        elif pabs.startswith(cwd.rstrip("/") + "/"):
+            cands.add(pabs[len(cwd.rstrip("/")) + 1 :])
+            cands.add("./" + pabs[len(cwd.rstrip("/")) + 1 :])
+        cands.discard(current)
+        cands.discard("")
+        return rnd.choice(sorted(cands))
+
     def place(i, dest_abs, wi):
         """model after upload(tree i, dest_abs, write_into=wi), or None if it would collide"""
         target = dest_abs if wi else dest_abs.rstrip("/") + "/" + names[i]
@@ -173,7 +184,15 @@ def gen_sequence(seed):
             if rnd.random() < 0.35 and target != "/" and not (cwd == target or cwd.startswith(target.rstrip("/") + "/")):
                 # churn: what was just placed is removed and placed again over the same connection
                 tsp = sp if wi else (sp.rstrip("/") + "/" + names[i])
-                ops.append(["remove", tsp, rnd.random() < 0.7])
+                y = rnd.random()
+                if y < 0.25:
+                    # ... by another session (nothing this client remembers may survive that)
+                    ops.append(["xremove", target])
+                elif y < 0.5:
+                    # ... under another spelling of the same location
+                    ops.append(["remove", respell(target, tsp), rnd.random() < 0.7])
+                else:
+                    ops.append(["remove", tsp, rnd.random() < 0.7])
                 model = {k: v for k, v in model.items() if not (k == target or k.startswith(target.rstrip("/") + "/"))}
                 ops.append(["upload", i, sp, wi])
                 model = with_parents({**model, **placed})
@@ -192,7 +211,13 @@ def gen_sequence(seed):
             sp = spell(pth)
             ops.append(["mkdir", sp, rnd.random() < 0.5])
             if rnd.random() < 0.3 and pth not in model and not (cwd == pth or cwd.startswith(pth + "/")):
-                ops.append(["remove", sp, rnd.random() < 0.7])
+                y = rnd.random()
+                if y < 0.25:
+                    ops.append(["xremove", pth])
+                elif y < 0.5:
+                    ops.append(["remove", respell(pth, sp), rnd.random() < 0.7])
+                else:
+                    ops.append(["remove", sp, rnd.random() < 0.7])
                 ops.append(["mkdir", sp, rnd.random() < 0.5])
             model = with_parents({**model, pth: None})
         elif x < 0.9:
@@ -342,6 +367,7 @@ def run_case(case):
             elif kind == "sequence":
                 model = dict(before)
                 mcwd = "/"
+                others = []
                 for i, t in enumerate(case["trees"]):
                     simfs.mem_populate(client.path_io.fs, {k: v for k, v in with_parents(flatten(t, "/local/" + case["names"][i])).items() if k != "/"})
                 for n, op in enumerate(case["ops"]):
@@ -358,6 +384,16 @@ def run_case(case):
                         await client.remove(op[1] if op[2] else pathlib.PurePosixPath(op[1]))
                         model = {k: v for k, v in model.items() if not (k == pabs or k.startswith(pabs.rstrip("/") + "/"))}
                         what = f"remove({op[1]!r} as {'str' if op[2] else 'PurePosixPath'})"
+                    elif op[0] == "xremove":
+                        if not others:
+                            c2 = aioftp.Client(path_io_factory=aioftp.MemoryPathIO)
+                            await c2.connect("127.0.0.1", 2121)
+                            await c2.login()
+                            others.append(c2)
+                        pabs = op[1]
+                        await others[0].remove(pabs)
+                        model = {k: v for k, v in model.items() if not (k == pabs or k.startswith(pabs.rstrip("/") + "/"))}
+                        what = f"remove({pabs!r}) by another session"
                     elif op[0] == "mkdir":
                         pabs = absolutize(mcwd, op[1])
                         await client.make_directory(op[1] if op[2] else pathlib.PurePosixPath(op[1]))
@@ -391,6 +427,8 @@ def run_case(case):
                         viol.append({"clause": "sequence-diverged", "subject": op[0], "detail": f"operation {n} {what} on the same connection after {case['ops'][:n]} (cwd {mcwd}): remote tree missing {miss}, unexpected {extra}, different content {diff}"})
                         break
                 info["seq_ops"] = len(case["ops"])
+                for c2 in others:
+                    await c2.quit()
             elif kind == "download_unreadable":
                 remote = with_parents(flatten(tree, "/r/src"))
                 world.populate({k: v for k, v in remote.items() if k not in before and k != "/"})
